@@ -388,6 +388,11 @@ def sections(ctx: Any) -> List[Ob]:
     fin = [n for n in pcfg.nodes if n.kind == 'stmt' and any(self_attr(t, pk0.params[0]) == 'state' and isinstance(st, ast.Assign) and norm(st.value) != '0' for t, st in attr_stores(n.ast))]
     writers = [n for n in pcfg.nodes if any(call_name(c).startswith(('_write_', '_insert_', 'write_')) or call_name(c) in ('_reset_for_next_packet',) for c in n.calls())]
     early = [(f_, w_) for f_ in fin for w_ in writers if pcfg.can_reach(f_, w_)]
+    unmarked = None
+    if fin and writers:
+        for w_ in writers:
+            unmarked = unmarked or pcfg.path_avoiding(w_, lambda n: n is pcfg.exit, lambda n: n in fin)
+    obs.append(ob(R, pk0, (unmarked[-2].ast if unmarked and len(unmarked) > 1 and unmarked[-2].ast is not None else (fin[0].ast if fin else 'self.state = STATE_FINISHED')), 'once something has been written, every normal way out of packets() marks the message finished (a later call returns the same sequence instead of building on top of it)', bool(fin) and unmarked is None, 'a path returns after writing without setting the finished mark' if unmarked else ''))
     obs.append(ob(R, pk0, fin[0].ast if fin else 'self.state = STATE_FINISHED', 'the finished mark is set after the last write (no writer can run -- and raise -- once it is set)', bool(fin) and not early, f'a writer at line {early[0][1].line} can run after the message was marked finished at line {early[0][0].line}' if early else ''))
     return obs
 
